@@ -987,11 +987,21 @@ def analyse_construct(prog, F, W, fn):
         custom_record = []
         wrong_value = []
         wdetail = ''
+        positional = None
         if len(n.args()) == 4:
             prop = n.args()[2]
-            if any(is_g_weight_read(W, d, cur_edge_vars) for d in prop.walk()):
-                weighted = True
-                wdetail = '4-argument add_edge with the input weight as property'
+            if any(is_g_weight_read(W, d, cur_edge_vars) for d in [prop] + list(prop.walk())):
+                inner = prop.strip_all()
+                # an implicit converting construction: MaterializeTemporary -> CXXConstructExpr (not written as a functional cast) -> the scalar
+                if inner.k == 'CXXConstructExpr' and len(inner.c) == 1 and (inner.parent is None or inner.parent.k not in ('CXXFunctionalCastExpr', 'CXXTemporaryObjectExpr')):
+                    inner = inner.c[0].strip_all()
+                inner_t = prog.base_type(inner.j.get('t')) or {}
+                if inner_t.get('arith') or (inner_t.get('canon') or '') in ('double', 'float', 'int', 'long', 'unsigned long', 'long long'):
+                    # a bare weight converts implicitly to the graph's whole edge-property bundle by filling its FIRST property, whatever its tag is
+                    positional = prop
+                else:
+                    weighted = True
+                    wdetail = '4-argument add_edge with an edge-property object built from the input weight'
         for m in (body.walk() if body is not None else ()):
             pm = cfg.pos_of(m)
             same_path = pm is not None and pn is not None and (pm[0] == pn[0] or cfg.block_postdominates(pm[0], pn[0]) or
@@ -1030,7 +1040,13 @@ def analyse_construct(prog, F, W, fn):
                     recorded = True
         lossy = [x for x in _LOSSY_COPIES if x[0].fn is fn and loop.is_ancestor_of(x[0])]
         del _LOSSY_COPIES[:]
-        if weighted and lossy:
+        if positional is not None and not weighted:
+            F.add('R05c', n, fn, whatw, 'violation',
+                  'the weight `%s` is passed as the property argument of add_edge: it converts implicitly to the edge-property bundle of the spanner by filling its first '
+                  'property, which is edge_weight only for graphs declared property<edge_weight_t, ..>; for a graph whose edge properties start with another tag '
+                  '(edge_index_t, edge_name_t, ...) every spanner edge gets weight 0 and the (2k-1) bound is lost' % positional.text(40),
+                  key='R05c|%s|positional-property' % fn.g)
+        elif weighted and lossy:
             F.add('R05c', n, fn, whatw, 'violation',
                   'the weight is copied through `%s %s` while the map\'s value type is %s: integral weights above 2^53 are rounded, the spanner no longer '
                   'carries the input weights (wider integral instantiations of the same template)' % (lossy[0][2], lossy[0][1], lossy[0][3]),
